@@ -15,6 +15,9 @@ import (
 )
 
 func WriteString(w io.Writer, buf encoding.Bufferer, s string) (n int64, err error) {
+	if len(s) > 65535 {
+		return 0, fmt.Errorf("string is too long to be encoded (%d > 65535 bytes)", len(s))
+	}
 	b := buf.Buffer(2)
 	l := uint16(len(s))
 	binary.BigEndian.PutUint16(b, l)
